@@ -67,8 +67,8 @@ ASSUMPTIONS = [
     "numerically or mathematically undefined: < 3 valid events, zero range, "
     "|correlation| ~ 1 for the Gaussian kernel, Doane bin number within 1e-6 "
     "of a rounding boundary",
-    "finite values of selected events are bounded by 1e6 in magnitude "
-    "(+-1e300 only as poison on excluded events)"]
+    "finite values of selected events are bounded by 1e6 in magnitude and are "
+    "0 or >= 1e-4 in magnitude (+-1e300 only as poison on excluded events)"]
 
 FEATS = [["area_um", "deform", "bright_avg"],
          ["fl1_max", "fl2_max", "pos_x"],
@@ -93,7 +93,8 @@ def st_data(draw):
                                  "medium", "medium", "medium", "large"]))
     if kind == "explicit":
         n = draw(st.integers(1, 9))
-        el = st.one_of(st_float(0, -50, 300),
+        # 4 decimals: no subnormal / 1e-300 magnitudes among the events
+        el = st.one_of(st_float(0, -50, 300).map(lambda v: round(v, 4)),
                        st.integers(0, 12).map(lambda i: i / 4),
                        st.sampled_from([float("nan"), float("inf"),
                                         float("-inf"), -0.0, 0.0]))
@@ -1052,7 +1053,10 @@ def _quantiles(c, q, xg, yg, X, Y, Z):
         density=Z.copy(), x=X.copy(), y=Y.copy(), xp=xp.copy(), yp=yp.copy(),
         q=arg_q, normalize=norm))
     if r[0] == "exc":
-        zero = float(xg.max()) == 0 or float(yg.max()) == 0
+        with np.errstate(all="ignore"):
+            # the function normalises each axis by its maximum
+            zero = not (np.all(np.isfinite(xg / xg.max()))
+                        and np.all(np.isfinite(yg / yg.max())))
         rec.check(False, "quantile/raises/" +
                   ("axis-max-zero" if zero else r[1]),
                   lambda: f"get_quantile_levels raised {r[2]} (x grid max "
